@@ -503,7 +503,8 @@ class C04Property:
             raise _CaseTimeout()
 
         cap = {"quick": 240, "thorough": 1200}[tier]
-        signal.signal(signal.SIGALRM, _alarm)
+        # CPU time of this process (ITIMER_PROF), not wall time: a loaded machine must not turn a slow case into an alarm
+        signal.signal(signal.SIGPROF, _alarm)
 
         # ---- histories (HARDENING rule 3/6): the same case on a fixed event set, (a) before anything else was
         # formulated in this process, (b) after everything else, (c) in fresh interpreters with other hash seeds
@@ -525,7 +526,7 @@ class C04Property:
                 continue
             t0 = time.time()
             entry = {"case": case.id}
-            signal.alarm(cap)
+            signal.setitimer(signal.ITIMER_PROF, cap)
             try:
                 import dataclasses
 
@@ -534,14 +535,14 @@ class C04Property:
                     built_cache[ck] = orc.build(case)
                 b = dataclasses.replace(built_cache[ck], case=case)
             except _CaseTimeout:
-                signal.alarm(0)
+                signal.setitimer(signal.ITIMER_PROF, 0)
                 report({"class": "case exceeded the wall-clock cap", "case": case.id},
                        {"input": {"case": _case_dict(case)}, "observed": f"> {cap} s", "broken": chk.broken})
                 entry["error"] = "timeout"
                 summary.append(entry)
                 continue
             except Exception as e:  # noqa: BLE001  the real code cannot formulate/lambdify the model
-                signal.alarm(0)
+                signal.setitimer(signal.ITIMER_PROF, 0)
                 err = "".join(traceback.format_exception(type(e), e, e.__traceback__))[-1500:]
                 sig = {"class": "the real code raised while the model was formulated", "case": case.id}
                 report(sig, {"input": {"case": _case_dict(case)}, "error": err, "broken": chk.broken})
@@ -599,9 +600,9 @@ class C04Property:
                     raise
                 except Exception as e:  # noqa: BLE001
                     degenerate[case.id] = {"error": "".join(traceback.format_exception_only(type(e), e))[-300:]}
-            signal.alarm(0)
+            signal.setitimer(signal.ITIMER_PROF, 0)
             summary.append(entry)
-        signal.alarm(0)
+        signal.setitimer(signal.ITIMER_PROF, 0)
         chk.info("oracle_cases", summary)
         chk.info("degenerate_events", degenerate)
 
